@@ -183,10 +183,22 @@ def gen_history(rng, ncmd):
         nout[0] += 1
         return 'out%d.txt' % nout[0]
 
+    def quit_cmd():
+        # every quit form without '!' and without 'a': plain, after a write of the buffer to its own path, after a write ELSEWHERE
+        # (path argument, range + path argument, shell pipe) -- the last three leave the buffer as dirty as it was
+        f = rng.choice(['q', 'q', 'q', 'wq', 'x', 'wq %s', 'x %s', '1,2wq %s', 'wq !cat >/dev/null', 'x !cat >/dev/null'])
+        return ('q', f % other() if '%s' in f else f, None)
+
     cmds = []      # (kind, text, info)
     for _ in range(ncmd):
-        r = rng.below(40)
-        if r < 12:
+        r = rng.below(42)
+        if r >= 40:
+            uniq[0] += 1
+            if rng.chance(1, 2):
+                cmds.append(('bulk', bulk_block(rng, rng.choice([40, 130, 260, 600]), 'b%d_' % uniq[0]), None))
+            else:
+                cmds.append(('ubulk', '\n'.join([rng.choice(['u', 'u', 'redo'])] * rng.choice([3, 50, 140, 700])), None))
+        elif r < 12:
             cmds.append(('mod', mod(), None))
         elif r < 16:
             cmds.append(('u', 'u', None))
@@ -211,7 +223,7 @@ def gen_history(rng, ncmd):
         elif r < 37:
             cmds.append(('b', 'b %d' % rng.range(1, nf), None))
         else:
-            cmds.append(('q', 'q', None))
+            cmds.append(quit_cmd())
     # shapes aimed at the bookkeeping: edit / partial own-path write / undo back / quit; edit|w|edit in one line / quit;
     # edit / write elsewhere / quit; edit / leave the buffer with ! / quit; edit / write / undo / (redo) / quit
     if rng.chance(1, 3):
@@ -226,6 +238,50 @@ def gen_history(rng, ncmd):
             [('mod', mod(), None), ('wpart', '1w', None), ('u', 'u', None), ('e', 'e %s' % t, t)],
         ])
         cmds = shape + cmds[:max(0, ncmd - len(shape))]
+    cmds.append(quit_cmd())
+    cmds.append(('q', 'q', None))
+    return files, cmds
+
+
+def bulk_block(rng, m, tag):
+    out = []
+    for i in range(m):
+        r = rng.below(4)
+        if r == 0:
+            out.append('$a\n%s%d\n.' % (tag, i))
+        elif r == 1:
+            out.append('1s/$/x/')
+        elif r == 2:
+            out.append('2s/^/y/')
+        else:
+            out.append('$s/.*/%s%d/' % (tag, i))
+    return '\n'.join(out)
+
+
+def gen_long(rng, n, variant):
+    """a history one or two orders of magnitude longer: n single-record commands in one block (crossing the growth points of
+    hist[] and whatever bound a history may have), a save in the middle for some, then undo further than there are commands (or
+    part of the way), redo part of the way, with the buffer list, the text and a quit observed at the checkpoints"""
+    files = {'f1.txt': b'aa\nbb\ncc\n'}
+    if variant % 2:
+        files['f2.txt'] = b'zz\n'
+
+    def block(m, tag):
+        return bulk_block(rng, m, tag)
+
+    cmds = []
+    if variant in (2, 3):
+        cmds += [('bulk', block(n // 2, 'p'), None), ('w', 'w', None), ('bulk', block(n - n // 2, 'q'), None)]
+    else:
+        cmds += [('bulk', block(n, 'p'), None)]
+    cmds.append(('q', 'q', None))
+    nu = n + 50 if variant != 4 else rng.range(1, n)
+    cmds.append(('ubulk', '\n'.join(['u'] * nu), None))
+    cmds.append(('q', 'q', None))
+    if variant % 2:
+        cmds += [('eforce', 'e! f2.txt', 'f2.txt'), ('q', 'q', None), ('q', 'q', None)]
+    cmds.append(('ubulk', '\n'.join(['redo'] * rng.choice([1, 7, n // 3])), None))
+    cmds.append(('q', 'wq out1.txt', None))
     cmds.append(('q', 'q', None))
     return files, cmds
 
@@ -247,7 +303,7 @@ def build_script(files, cmds):
         s.append('ec @@C%d@@' % k)
         s.append(text)
         s.append('ec @@A%d@@' % k)          # still alive after the command
-        if kind in ('w', 'wpart', 'wother', 'wjoin'):
+        if kind in ('w', 'wpart', 'wother', 'wjoin') or (kind == 'q' and text != 'q'):
             for j, n in enumerate(names):
                 s.append('w !cp %s snap_%d_%d 2>/dev/null' % (n, k, j))
         observe(k)
@@ -312,11 +368,16 @@ def oracle_history(files, cmds, obs, exited_at, snaps):
         return text[p] != as_text(content.get(p, b''))
 
     for k in range(1, len(cmds) + 1):
-        kind, ctext, info = cmds[k - 1]
+        kind, ctext_full, info = cmds[k - 1]
+        ctext = ctext_full if len(ctext_full) <= 60 else ctext_full[:40] + ' ... (%d lines)' % (ctext_full.count('\n') + 1)
         before_paths = set(text)
         dirty_before = {p: dirty(p) for p in text}
         saved_state_before = {p: (state.get(p) == 0 and not dirty_before[p]) for p in text}
         gone = exited_at == k
+        if kind == 'q' and ctext in ('wq', 'x'):
+            # the current buffer is first written whole to its own path (x: if it is reported modified): for the decision it is saved
+            dirty_before[prev_cur] = False
+            saved_state_before[prev_cur] = True
         if kind == 'q':
             if any(dirty_before.values()):
                 if gone:
@@ -344,7 +405,7 @@ def oracle_history(files, cmds, obs, exited_at, snaps):
             if p not in listed:
                 return (k, 'buffer %s disappeared from the buffer list after %r' % (p, ctext), 'still open', lst)
         # file contents (snapshots exist after writing commands)
-        if kind in ('w', 'wpart', 'wother', 'wjoin'):
+        if kind in ('w', 'wpart', 'wother', 'wjoin') or (kind == 'q' and ctext != 'q'):
             for j, n in enumerate(names):
                 sn = snaps.get('snap_%d_%d' % (k, j))
                 if sn is not None:
@@ -392,11 +453,16 @@ def oracle_history(files, cmds, obs, exited_at, snaps):
                     state[p] = 0
             elif kind == 'wpart':
                 if wrote:
-                    state[p] = 0 if whole_range(ctext[:-1], text[p].count(b'\n')) else None
+                    state[p] = 0 if whole_range(ctext_full[:-1], text[p].count(b'\n')) else None
             elif kind == 'wjoin':
-                state[p] = 0 if (ctext.endswith('|w') and wrote) else None
+                state[p] = 0 if (ctext_full.endswith('|w') and wrote) else None
             elif kind == 'reload':
                 state[p] = 0 if re.search(rb'\[r\]', o['cmdout']) else None
+            elif kind in ('bulk', 'ubulk'):
+                state[p] = None
+        if kind == 'q' and ctext in ('wq', 'x') and prev_cur in text:
+            if re.search(rb'"' + re.escape(prev_cur.encode()) + rb'"  \[=\d+\]  \[w\]', o['cmdout']):
+                state[prev_cur] = 0
         # an unchanged text after u/redo may be a failed or an empty step: the position is then uncertain only if it was not at an end
         # the dirty indicator never reports clean while text and file differ
         for (_, c, p, f) in lst:
@@ -412,7 +478,7 @@ def oracle_history(files, cmds, obs, exited_at, snaps):
 def run_history(exe, model_q, files, cmds, timeout=30):
     script = build_script(files, cmds)
     names = sorted(files)
-    snapn = ['snap_%d_%d' % (k + 1, j) for k, c in enumerate(cmds) if c[0] in ('w', 'wpart', 'wother', 'wjoin') for j in range(len(names))]
+    snapn = ['snap_%d_%d' % (k + 1, j) for k, c in enumerate(cmds) if (c[0] in ('w', 'wpart', 'wother', 'wjoin') or (c[0] == 'q' and c[1] != 'q')) for j in range(len(names))]
     r = vlib.run_ex(exe, script, files=files, args=names[:1], readback=snapn + names, timeout=timeout)
     if r.timed_out or r.crashed():
         r = vlib.run_ex(exe, script, files=files, args=names[:1], readback=snapn + names, timeout=3 * timeout)
@@ -428,6 +494,8 @@ def run_history(exe, model_q, files, cmds, timeout=30):
             continue
         flags = [('1' if f == '*' else '0') for (_, _, _, f) in obs[k - 1]['listing']]
         paths = [p for (_, _, p, _) in obs[k - 1]['listing']]
+        if kind == 'q' and cmds[k - 1][1] in ('wq', 'x'):
+            continue
         if kind == 'q':
             if exited_at == k:
                 qs.append(('Q ' + ' '.join(flags), 'quit', k))
@@ -481,7 +549,7 @@ def run(ctx):
         if r2['status'] != 'bad':
             small, r2 = cmds, r
         bad = r2['bad']
-        res.violation({'what': 'history, command %d (%r): %s' % (bad[0], small[bad[0] - 1][1] if 0 < bad[0] <= len(small) else '', bad[1]),
+        res.violation({'what': 'history, command %d (%r): %s' % (bad[0], small[bad[0] - 1][1][:60] if 0 < bad[0] <= len(small) else '', bad[1]),
                        'input': {'kind': 'history', 'files': {k: v.decode('latin-1') for k, v in files.items()}, 'cmds': [list(c) for c in small]},
                        'expected': repr(bad[2]), 'observed': repr(bad[3]), 'output_tail': r2['out'].decode('latin-1')})
 
@@ -521,7 +589,18 @@ def run(ctx):
     r2 = rng.fork('lbuf-random')
     rcases = [(r2.choice(INITS + [b'', b'l1\nl2\nl3\nl4\n']), rand_ops(r2, r2.choice([6, 10, 16, 30, 50]))) for _ in range(3000 if ctx.quick else 100000)]
     res.count('lbuf random lists', len(rcases))
-    allc = cases + rcases
+    lcases = []
+    for n in ([130, 1000, 4200] if ctx.quick else [127, 128, 129, 257, 600, 1000, 2100, 4200, 5000, 8300]):
+        for mid in (False, True):
+            ops = []
+            for i in range(n):
+                ops += [E(i % 2, i % 2 + 1, b'%d\n' % i), 'M']        # replaces one line: the text stays two lines long
+                if mid and i == n // 2:
+                    ops += ['S']
+            ops += ['U'] * (n + 5) + ['M', 'R', 'R', 'M'] + ['U'] * 3 + ['M']
+            lcases.append((b'a\nb\n', ops))
+    res.count('lbuf long lists (up to %d edits, undone past the start)' % max(len(o) for _, o in lcases), len(lcases))
+    allc = cases + rcases + lcases
     nchunk = max(16, len(allc) // 40000)
     size = (len(allc) + nchunk - 1) // nchunk
     jobs = [(probe, model, allc[i:i + size]) for i in range(0, len(allc), size)]
@@ -541,7 +620,12 @@ def run(ctx):
     nh = 250 if ctx.quick else 6000
     r3 = rng.fork('history')
     hs = [gen_history(r3, r3.choice([4, 7, 10, 14])) for _ in range(nh)]
-    houts = vlib.pmap(lambda h: run_history(vi, None, h[0], h[1]), hs)
+    r4 = rng.fork('long')
+    longs = [(1000, 0), (2100, 1), (4200, 0), (4200, 2), (4200, 4)] if ctx.quick else \
+            [(n, v) for n in (130, 260, 600, 1000, 2100, 4200, 5000, 8300) for v in range(5)]
+    hs += [gen_long(r4, n, v) for n, v in longs]
+    res.count('long histories (one block of 130..8300 commands, undone past the start)', len(longs))
+    houts = vlib.pmap(lambda h: run_history(vi, None, h[0], h[1], timeout=60), hs)
     questions = []
     nref = 0
     for (files, cmds), r in zip(hs, houts):
